@@ -399,6 +399,17 @@ example :
     parseValue "@a({1 ; 2})\n{ }".toList = parseValue "@a(1,2)".toList ∧
     (parseValue "@a(1,2)".toList).isSome = true := by decide +kernel
 
+/-- The open statement below with the exact extra hypothesis under which it is proved: each text's event stream is a
+layout of its value (some choice of brace-less attribute bodies, not necessarily the same for the two texts). -/
+theorem C15_cmp_complete_partial :
+    ∀ a b : List Char, ∀ va vb : Value, parseValue a = some va → parseValue b = some vb → veq va vb = true →
+      (∃ ch, inLayout ch a = true) → (∃ ch, inLayout ch b = true) → compareRecon a b = true := by
+  intro a b va vb pa pb h ⟨ch1, la⟩ ⟨ch2, lb⟩
+  exact C15_cmp_complete_layout_texts ch1 ch2 a b va vb pa pb la lb h
+
+example : (∃ ch, inLayout ch "@a({1 ; 2})\n{ }".toList = true) ∧ (∃ ch, inLayout ch "@a(1\n2)".toList = true) :=
+  ⟨⟨fun _ => false, by decide +kernel⟩, ⟨fun _ => true, by decide +kernel⟩⟩
+
 /-! ## open (tied by differential testing only) -/
 
 /-- No false splits on ALL valid texts: texts of equal values compare equal, whatever their layout (implicit / explicit
